@@ -567,3 +567,12 @@ CHECKS["C06"]["exhaustive_note"] = "the single-request authorisation table (endp
 CHECKS["C01"]["jobs"].append(J("smallscope", VSTORE, "TestC01SmallScope", {"shards": 1, "timeout": 900}, rapid=False))
 CHECKS["C01"]["required_classes"]["all"] += ["small-scope-exhaustive"]
 CHECKS["C01"]["exhaustive_note"] = "all 2 x (7+49+343+2401) histories of up to 4 operations from a 7-operation alphabet on one user are enumerated on every run, with 6 password probes after every step"
+
+# round 3
+CHECKS["C07"]["jobs"].append(J("nonce-truncation", AGENT, "TestC07NonceTruncation", {"shards": 1}, {"shards": 4}, toolchain="go126", rapid=False))
+CHECKS["C07"]["required_classes"]["all"] += ["nonce-truncation:tail-00", "nonce-truncation:head-00", "identity-checked-under-concurrent-issuance"]
+# the digest is a function of the record and the configuration, never of the host: the same generators on one CPU
+CHECKS["C02"]["jobs"].append(J("hashfile-1cpu", VSTORE, "TestC02HashFile", {"shards": 2, "checks": 150, "env": {"GOMAXPROCS": "1"}}, {"shards": 4, "checks": 5000, "env": {"GOMAXPROCS": "1"}}))
+CHECKS["C14"]["jobs"].append(J("records-1cpu", VSTORE, "TestC14Records", {"shards": 2, "checks": 60, "env": {"GOMAXPROCS": "1"}}, {"shards": 4, "checks": 3000, "env": {"GOMAXPROCS": "1"}}))
+CHECKS["C02"]["required_classes"]["all"] += ["handle-still-serves-writes-afterwards"]
+CHECKS["C04"]["required_classes"]["all"] = CHECKS["C04"].get("required_classes", {}).get("all", []) + ["mgmt-op:update", "bb-probes-concurrent"]
